@@ -113,6 +113,10 @@ class Ctx:
     # ---- recording ----------------------------------------------------
     def case(self, case, nontrivial, classes=()):
         self.evaluations += 1
+        # fall-back sample for checks that do not call ctx.sample themselves: the first (non-trivial, if any) case
+        if getattr(self, '_auto_sample', None) is None or (nontrivial and not getattr(self, '_auto_nontrivial', False)):
+            if len(canon(case)) < 20000:
+                self._auto_sample, self._auto_nontrivial = case, bool(nontrivial)
         if nontrivial:
             self.nontrivial.add(case_hash(case))
         for c in classes:
@@ -223,7 +227,8 @@ class Ctx:
             'nontrivial': sorted(self.nontrivial),
             'classes': dict(self.classes), 'rejected': dict(self.rejected),
             'rejected_samples': self.rejected_samples,
-            'excluded': dict(self.excluded), 'samples': self.samples,
+            'excluded': dict(self.excluded),
+            'samples': self.samples or ([{'case': self._auto_sample}] if getattr(self, '_auto_sample', None) is not None else []),
             'failures': self.failures, 'notes': self.notes,
             'exhaustive': self.exhaustive, 'extra': self.extra,
             'budget_exhausted': self.budget_exhausted,
